@@ -361,7 +361,7 @@ def real_requester(evs):
                 else:
                     conn._dispatch(brine.dump((consts.MSG_REPLY, e[1], (consts.LABEL_VALUE, 7))))
         nxt = next(conn._seqcounter)
-        return {"next": nxt, "callbacks": sorted((q, None) for q in conn._request_callbacks), "log": log, "keys": sorted(conn._request_callbacks)}
+        return {"next": nxt, "callbacks": sorted((q, f.__defaults__[0]) for q, f in conn._request_callbacks.items()), "log": log, "keys": sorted(conn._request_callbacks)}
     except BaseException as ex:
         return {"error": "%s: %s" % (type(ex).__name__, ex)}
     finally:
